@@ -639,7 +639,12 @@ def _creation(sub, case):
     for inst_no in instance_numbers(case):
         args, kwargs, explicit = call_args(case, attrs, inst_no, ref_id)
         sub.count('news')
-        inst = create(m, mc, case['route'], args, kwargs, inst)
+        try:
+            inst = create(m, mc, case['route'], args, kwargs, inst)
+        except Exception as e:
+            # every type of class K is known: a creation call has no reason to fail
+            return problems + [('create:exception:%s' % type(e).__name__, 'creation call number %d raised %s: %s' %
+                                (inst_no + 1, type(e).__name__, e), 'an instance', type(e).__name__)]
         got = judge_instance(inst, jattrs, explicit, gref)
         problems += got
         sub.count('instances_judged')
